@@ -101,9 +101,18 @@ cv_i64 _ZNKSt14__shared_countILN9__gnu_cxx12_Lock_policyE2EE16_M_get_use_countEv
     CONSTRUCT; \
     if (cv_exc_pending) { gh_frees++; free(cb); return; } \
     this_->_M_pi = (void *)cb; *p = obj; }
-/* operator-> / operator* of __shared_ptr_access<T>: precondition "not empty" (libstdc++: __glibcxx_assert(_M_get() != nullptr)) */
+/* operator-> / operator* of __shared_ptr_access<T>: precondition "not empty" (libstdc++: __glibcxx_assert(_M_get() != nullptr)).
+ * The violated precondition is the reported obligation; like the other fatal primitives (std::terminate, llvm.trap in rt_core.c)
+ * the path ends there - what a null dereference does next is undefined and would only produce a cascade of follow-up failures.
+ * Define CV_SP_CONTINUE_AFTER_EMPTY_DEREF to keep executing with the null pointer instead. */
+#ifdef CV_SP_CONTINUE_AFTER_EMPTY_DEREF
+#define CV_SP_STOP(c)
+#else
+#define CV_SP_STOP(c) __CPROVER_assume(c)
+#endif
 #define CV_SP_DEFINE_ACCESS(fn, ACCESS_T, SHARED_PTR_T, what) \
   CV_SP_POINTEE *fn(ACCESS_T *this_) { \
     CV_SP_POINTEE *p = (CV_SP_POINTEE *)((SHARED_PTR_T *)this_)->_M_ptr; \
     __CPROVER_assert(p != 0, what " on an empty std::shared_ptr (null pointer dereference)"); \
+    CV_SP_STOP(p != 0); \
     return p; }
